@@ -544,6 +544,35 @@ def concurrent_cache_writes(k, tmpdir):
     return out
 
 
+# ------------------------------------------------------------------------------ C01 / C07: a very deep DAG
+def deep_chain(k, is_async):
+    """a chain of 700 dependent calls (deeper than Python's default recursion limit allows a recursive walk to go):
+    the DAG builds, its value is the plain function's, the compound priority of the head is the sum over the chain"""
+    n = 700
+
+    def step(v):
+        return v + 1
+    sx = tawazi.xn(named(step, "sc_deep%d" % k), priority=1)
+
+    def desc(x):
+        for _ in range(n):
+            x = sx(x)
+        return x
+    try:
+        d = tawazi.dag(named(desc, "sc_deepd%d" % k), max_concurrency=2, is_async=is_async)
+    except BaseException as e:  # noqa: BLE001
+        return [("C01", "a chain of %d dependent calls does not build: %s: %s" % (n, type(e).__name__, str(e)[:100]))]
+    out = []
+    st = in_thread((lambda: asyncio.run(d(5))) if is_async else (lambda: d(5)), 60)
+    if st != ("ok", 5 + n):
+        out.append(("C01", "a chain of %d dependent calls: the plain function returns %d, the DAG %r" % (n, 5 + n, st)))
+    cp = d.graph_ids.compound_priority
+    head = "sc_deep%d" % k
+    if cp.get(head) != n:
+        out.append(("C07", "a chain of %d nodes of priority 1: compound priority of the head is %r" % (n, cp.get(head))))
+    return out
+
+
 def run(pid, tier, seed, res):
     n = 2 if tier == "quick" else 8
     for k in range(n):
@@ -567,6 +596,11 @@ def run(pid, tier, seed, res):
                 res.hit("C16", "monitor", msg, dict(engine="scenario", kind="monitor", scenario="concurrent_builds_stress", k=k))
             for msg in concurrent_calls_stress(k, 2.5 if tier == "quick" else 15.0):
                 res.hit("C16", "monitor", msg, dict(engine="scenario", kind="monitor", scenario="concurrent_calls_stress", k=k))
+        if pid in ("C01", "C07") and k == 0:
+            for fl in (False, True):
+                res.evaluations += 1
+                for p_, msg in deep_chain(2 * k + int(fl), fl):
+                    res.hit(p_, "monitor", msg, dict(engine="scenario", kind="monitor", scenario="deep_chain", k=k, is_async=fl))
         if pid in ("C08", "C04") and k == 0:
             for fl in (False, True):
                 res.evaluations += 1
